@@ -306,6 +306,14 @@ func (l *NDNLPLinkService) handleIncomingFrame(frame []byte) {
 		IncomingFaceID: utils.IdPtr(l.faceID),
 	}
 
+	// A frame is one element: an LpPacket, an Interest or a Data. The parser reads
+	// every element up to the end of the buffer into one Packet, so anything behind the
+	// first element would be kept in Raw and forwarded without ever being looked at.
+	if !isSingleElement(wire) {
+		core.LogWarn(l, "Received frame that is not exactly one TLV element - DROP")
+		return
+	}
+
 	L2, _, err := spec.ReadPacket(enc.NewBufferReader(wire))
 	if err != nil {
 		core.LogError(l, err)
@@ -381,6 +389,14 @@ func (l *NDNLPLinkService) handleIncomingFrame(frame []byte) {
 		// a new buffer: the last-arrived fragment still points into wire.
 		wire = fragment.Join()
 
+		// The payload is one network-layer packet. Further packets in the same
+		// Fragment would escape every name-based check (e.g. the /localhost scope)
+		// of the forwarding pipeline, which sees one name but sends all of Raw.
+		if !isSingleElement(wire) {
+			core.LogWarn(l, "Received NDNLPv2 payload that is not exactly one network-layer packet - DROP")
+			return
+		}
+
 		// Parse inner packet in place
 		L3, _, err := spec.ReadPacket(enc.NewBufferReader(wire))
 		if err != nil {
@@ -400,6 +416,20 @@ func (l *NDNLPLinkService) handleIncomingFrame(frame []byte) {
 	} else {
 		core.LogError(l, "Attempted dispatch packet of unknown type")
 	}
+}
+
+// isSingleElement reports whether buf consists of exactly one TLV element, with
+// nothing behind it.
+func isSingleElement(buf []byte) bool {
+	reader := enc.NewBufferReader(buf)
+	if _, err := enc.ReadTLNum(reader); err != nil {
+		return false
+	}
+	length, err := enc.ReadTLNum(reader)
+	if err != nil {
+		return false
+	}
+	return uint64(length) == uint64(reader.Length()-reader.Pos())
 }
 
 func (l *NDNLPLinkService) reassemblePacket(
